@@ -111,7 +111,7 @@ def math3 (name : String) (a b c : JV) : Option NRes :=
     match b with
     | .num y =>
       match c with
-      | .num z => if name == "fma" then some (pure (.num (ffma x.toFlt y.toFlt z.toFlt))) else none
+      | .num z => if name == "fma" then (ffma x.toFlt y.toFlt z.toFlt).map fun n => pure (.num n) else none
       | c => some (throw (errFunc0 name c))
     | b => some (throw (errFunc0 name b))
   | a => some (throw (errFunc0 name a))
